@@ -22,7 +22,9 @@
 //!   — dispatch over [`FieldId`] × extension (in the options) × [`HashId`]; no generics needed.
 //! * [`OptSpec`] — proof options as plain numbers (`q.b.g.x.f.r` text form), `accepted()` = what
 //!   `ProofOptions::new` accepts, `to_options()`.
-//! * [`random_desc`]`(rng, &Budget) -> AirDesc` — random description within a size budget.
+//! * [`random_desc`]`(rng, &Budget) -> AirDesc` — random description within a size budget (structured
+//!   periodic columns and assertion sequences included); [`random_desc_for`] adds field-specific
+//!   low-degree periodic columns ([`low_degree_periodic`]).
 //!
 //! # Notes for users
 //! * The harness is built with debug assertions: the library then validates the trace before
@@ -1925,13 +1927,45 @@ pub fn random_desc(rng: &mut Rng, bud: &Budget) -> AirDesc {
     let n = 1usize << rng.range(bud.min_log_len.max(3) as u64, bud.max_log_len.max(bud.min_log_len).max(3) as u64);
     let w = if rng.chance(1, 2) { rng.range(1, bud.max_width.min(4) as u64) } else { rng.range(1, bud.max_width as u64) } as usize;
     let maxd = bud.max_degree.max(1);
-    // periodic columns
+    // periodic columns: several cycle lengths at once where possible; values random or structured
+    // (constant, zero, a single non-zero entry, sub-periodic such as [3,5,3,5], 0/1 selector)
     let np = if rng.chance(1, 2) { 0 } else { rng.range(1, 3) as usize };
-    let mut periodic = vec![];
+    let mut periodic: Vec<Vec<u128>> = vec![];
+    // columns whose interpolant may have less than full degree: used as factors only in degenerate mode
+    let mut structured: Vec<bool> = vec![];
     for _ in 0..np {
-        let c = 1usize << rng.range(1, n.ilog2() as u64);
-        periodic.push((0..c).map(|_| rng.range(1, 1 << 40) as u128).collect::<Vec<u128>>());
+        let mut c = 1usize << rng.range(1, n.ilog2() as u64);
+        for _ in 0..4 {
+            if periodic.iter().any(|p| p.len() == c) {
+                c = 1usize << rng.range(1, n.ilog2() as u64);
+            }
+        }
+        let style = rng.below(9);
+        let val = |rng: &mut Rng| rng.range(1, 1 << 40) as u128;
+        let values: Vec<u128> = match style {
+            0 => {
+                let v = val(rng);
+                vec![v; c]
+            },
+            1 => vec![0; c],
+            2 => {
+                let at = rng.below(c as u64) as usize;
+                let v = val(rng);
+                (0..c).map(|i| if i == at { v } else { 0 }).collect()
+            },
+            3 if c >= 4 => {
+                let sub = 1usize << rng.range(1, c.ilog2() as u64 - 1);
+                let base: Vec<u128> = (0..sub).map(|_| val(rng)).collect();
+                (0..c).map(|i| base[i % sub]).collect()
+            },
+            4 => (0..c).map(|_| rng.below(2) as u128).collect(),
+            _ => (0..c).map(|_| val(rng)).collect(),
+        };
+        structured.push(style <= 4 && !(style == 3 && c < 4));
+        periodic.push(values);
     }
+    // periodic columns usable as multiplicative factors without lowering the actual degree
+    let factors: Vec<usize> = (0..np).filter(|i| bud.degenerate || !structured[*i]).collect();
     let mut cols: Vec<ColGen> = vec![];
     let mut constraints: Vec<Constraint> = vec![];
     let cycles: Vec<usize> = periodic.iter().map(|p| p.len()).collect();
@@ -1943,6 +1977,8 @@ pub fn random_desc(rng: &mut Rng, bud: &Budget) -> AirDesc {
     let mut generic: Vec<usize> = vec![];
     // constant / cyclic columns (for periodic assertions): (column, period)
     let mut cyclic: Vec<(usize, usize)> = vec![];
+    // low-degree free columns (their sequence assertions have low-degree value sequences)
+    let mut lowdeg: Vec<usize> = vec![];
     for j in 0..w {
         let any = |rng: &mut Rng| -> usize { rng.below(w as u64) as usize };
         let gen_or_self = |rng: &mut Rng, generic: &Vec<usize>| -> usize {
@@ -1985,9 +2021,9 @@ pub fn random_desc(rng: &mut Rng, bud: &Budget) -> AirDesc {
                 generic.push(j);
             },
             // x' = periodic * x^(d-1) * y + k   (degree with a cycle)
-            2 if np > 0 && maxd >= 2 => {
+            2 if !factors.is_empty() && maxd >= 2 => {
                 let d = rng.range(1, (maxd - 1) as u64) as u32;
-                let p = rng.below(np as u64) as usize;
+                let p = *rng.pick(&factors);
                 let mut e = Expr::mul(Expr::Per(p), Expr::pow(Expr::Cur(j), d));
                 e = Expr::add(e, small_const(rng));
                 mk(Expr::sub(Expr::Nxt(j), e.clone()), &mut constraints);
@@ -2026,7 +2062,10 @@ pub fn random_desc(rng: &mut Rng, bud: &Budget) -> AirDesc {
                 }
                 cyclic.push((j, c));
             },
-            7 => cols.push(ColGen::LowDeg(rng.below((n - 1) as u64) as usize)),
+            7 => {
+                cols.push(ColGen::LowDeg(rng.below((n - 1) as u64) as usize));
+                lowdeg.push(j);
+            },
             // pointwise function of lower columns: c_j = c_a * c_b
             8 if j > 0 && maxd >= 2 && !generic.is_empty() && generic.iter().any(|g| *g < j) => {
                 let lower: Vec<usize> = generic.iter().copied().filter(|g| *g < j).collect();
@@ -2091,8 +2130,13 @@ pub fn random_desc(rng: &mut Rng, bud: &Budget) -> AirDesc {
     let mut assertions = vec![];
     let na = rng.range(1, 4);
     for _ in 0..na {
-        let col = rng.below(w as u64) as usize;
+        let mut col = rng.below(w as u64) as usize;
         let kind = rng.below(10);
+        // constant / sub-periodic / low-degree value sequences: assert on structured columns
+        let structured_cols: Vec<usize> = cyclic.iter().map(|c| c.0).chain(lowdeg.iter().copied()).collect();
+        if !structured_cols.is_empty() && rng.chance(1, 3) {
+            col = *rng.pick(&structured_cols);
+        }
         let a = if kind < 5 {
             let any_step = rng.below(n as u64) as usize;
             let step = *rng.pick(&[0usize, 0, 1, n - 1, n - 2, n / 2, any_step]);
@@ -2120,17 +2164,23 @@ pub fn random_desc(rng: &mut Rng, bud: &Budget) -> AirDesc {
     // ---- auxiliary segment
     if rng.below(100) < bud.aux_pct && desc.total_width() < 250 {
         let lagrange = rng.below(100) < bud.lagrange_pct;
-        let nreg = rng.range(1, 3) as usize;
-        let num_rands = rng.range(1, 3) as usize;
+        // number of regular aux columns (= aux constraints before duplication): mostly 1..3, sometimes
+        // more than the main segment has constraints
+        let nreg = if rng.chance(1, 5) { rng.range(4, 6) as usize } else { rng.range(1, 3) as usize };
+        // no random elements at all in one case out of five (constants take their place)
+        let num_rands = if rng.chance(1, 5) { 0 } else { rng.range(1, 3) as usize };
         let mut acols = vec![];
         let mut acons = vec![];
         let mut aasserts: Vec<AuxAssertDesc> = vec![];
         let cycles = desc.cycles();
         for j in 0..nreg {
             let x = rng.below(w as u64) as usize;
-            let r0 = Expr::Rand(rng.below(num_rands as u64) as usize);
-            let r1 = Expr::Rand(rng.below(num_rands as u64) as usize);
-            let nper = desc.periodic.len();
+            let (r0, r1) = if num_rands == 0 {
+                (small_const(rng), small_const(rng))
+            } else {
+                (Expr::Rand(rng.below(num_rands as u64) as usize), Expr::Rand(rng.below(num_rands as u64) as usize))
+            };
+            let nper = factors.len();
             let mut kind = if j == 0 { rng.below(2) } else { rng.below(3) };
             if nper > 0 && rng.chance(1, 4) {
                 kind = 3;
@@ -2138,7 +2188,7 @@ pub fn random_desc(rng: &mut Rng, bud: &Budget) -> AirDesc {
             match kind {
                 // running sum with a periodic selector: s' = s + p * c_x * r0, s_0 = r1
                 3 => {
-                    let pi = rng.below(nper as u64) as usize;
+                    let pi = *rng.pick(&factors);
                     let step = Expr::add(Expr::AuxCur(j), Expr::mul(Expr::mul(Expr::Per(pi), Expr::Cur(x)), r0.clone()));
                     let c = Expr::sub(Expr::AuxNxt(j), step.clone());
                     acons.push(Constraint { degree: c.degree(&cycles, n), expr: c });
@@ -2189,30 +2239,35 @@ pub fn random_desc(rng: &mut Rng, bud: &Budget) -> AirDesc {
         }
         if aasserts.is_empty() {
             // assert the first cell of aux column 0 through a fresh main assertion if possible
-            if let Some(AuxGen::Fn(e)) = acols.first() {
-                // a = r_i * c_x + r_k  at step 0
-                let mut x = 0;
-                e.walk(&mut |t| {
-                    if let Expr::Cur(i) = t {
-                        x = *i;
-                    }
-                });
-                let pos = desc.num_pub_inputs();
-                let mut list = desc.assertions.clone();
-                let cell = (0..n).find(|s| !used.contains(&(x, *s))).unwrap_or(0);
-                if try_add(AssertDesc::single(x, cell), &mut list, &mut used) {
-                    desc.assertions = list;
-                    let mut rs = vec![];
-                    e.walk(&mut |t| {
-                        if let Expr::Rand(_) = t {
-                            rs.push(t.clone());
+            if let Some(AuxGen::Fn(Expr::Add(m, r1))) = acols.first() {
+                // a = r_i * c_x + r_k  at a free cell
+                if let Expr::Mul(r0, cx) = &**m {
+                    if let Expr::Cur(x) = &**cx {
+                        let x = *x;
+                        let pos = desc.num_pub_inputs();
+                        let mut list = desc.assertions.clone();
+                        let cell = (0..n).find(|s| !used.contains(&(x, *s))).unwrap_or(0);
+                        if try_add(AssertDesc::single(x, cell), &mut list, &mut used) {
+                            desc.assertions = list;
+                            aasserts.push(AuxAssertDesc {
+                                a: AssertDesc::single(0, cell),
+                                value: Expr::add(Expr::mul((**r0).clone(), Expr::Pub(pos)), (**r1).clone()),
+                            });
                         }
-                    });
-                    aasserts.push(AuxAssertDesc {
-                        a: AssertDesc::single(0, cell),
-                        value: Expr::add(Expr::mul(rs[0].clone(), Expr::Pub(pos)), rs[1].clone()),
-                    });
+                    }
                 }
+            }
+        }
+        // the numbers of main and auxiliary constraints differ in both directions: scaled copies
+        if !acons.is_empty() && rng.chance(1, 4) {
+            while acons.len() <= desc.constraints.len() && acons.len() < 12 {
+                let c = acons[rng.below(acons.len() as u64) as usize].clone();
+                acons.push(Constraint { degree: c.degree, expr: Expr::mul(small_const(rng), c.expr) });
+            }
+        } else if !acons.is_empty() && rng.chance(1, 6) {
+            while desc.constraints.len() <= acons.len() && desc.constraints.len() < 12 {
+                let c = desc.constraints[rng.below(desc.constraints.len() as u64) as usize].clone();
+                desc.constraints.push(Constraint { degree: c.degree, expr: Expr::mul(small_const(rng), c.expr) });
             }
         }
         if !aasserts.is_empty() && maxd >= 2 || (!aasserts.is_empty() && acons.iter().all(|c| c.degree.base + c.degree.cycles.len() <= maxd)) {
@@ -2246,4 +2301,46 @@ pub fn random_desc(rng: &mut Rng, bud: &Budget) -> AirDesc {
     }
     debug_assert!(desc.validate().is_ok(), "random_desc produced an invalid description: {:?} {}", desc.validate(), desc.to_line());
     desc
+}
+
+// ================================================================================================
+// FIELD-SPECIFIC STRUCTURED DATA
+// ================================================================================================
+fn low_degree_periodic_g<B: GField>(cycle: usize, degree: usize, seed: u64) -> Vec<u128> {
+    let mut rng = Rng::new(seed ^ 0x10de6);
+    let coef: Vec<B> = (0..=degree).map(|_| rand_elem::<B>(&mut rng)).collect();
+    let w = B::get_root_of_unity(cycle.ilog2());
+    let mut x = B::ONE;
+    let mut out = Vec::with_capacity(cycle);
+    for _ in 0..cycle {
+        let mut acc = B::ZERO;
+        for c in coef.iter().rev() {
+            acc = acc * x + *c;
+        }
+        out.push(acc.canon());
+        x *= w;
+    }
+    out
+}
+
+/// values of a periodic column of length `cycle` (a power of two >= 2) whose interpolating polynomial
+/// has degree exactly `degree` (< cycle) over `field`: a low-degree periodic column, e.g. degree 1
+/// for cycle 8. (Constant and sub-periodic columns are field independent; this one is not.)
+pub fn low_degree_periodic(field: FieldId, cycle: usize, degree: usize, seed: u64) -> Vec<u128> {
+    assert!(cycle.is_power_of_two() && cycle >= 2 && degree < cycle);
+    by_field!(field, low_degree_periodic_g, (cycle, degree, seed))
+}
+
+/// [`random_desc`] specialised to a field: in one case out of four one periodic column (if any) is
+/// replaced by a low-degree one of the same cycle length (degree below half the cycle). The actual
+/// constraint degrees may then be below the declared ones, as for `Budget::degenerate`.
+pub fn random_desc_for(rng: &mut Rng, bud: &Budget, field: FieldId) -> AirDesc {
+    let mut d = random_desc(rng, bud);
+    if !d.periodic.is_empty() && rng.chance(1, 4) {
+        let i = rng.below(d.periodic.len() as u64) as usize;
+        let c = d.periodic[i].len();
+        let deg = if c >= 4 { rng.range(1, (c / 2 - 1) as u64) as usize } else { 0 };
+        d.periodic[i] = low_degree_periodic(field, c, deg, rng.u64());
+    }
+    d
 }
